@@ -14,6 +14,8 @@
 //   - a *failed* call that also took longer than the threshold: certainly a failure, counted as a
 //     slow call too or not (statement lists success / failure / slow as kinds, docs call any
 //     request longer than the threshold slow);
+//   - a call that failed after its context was cancelled: it is recorded (one result per admitted
+//     call: the window grows, a trial slot is answered) but as a failure or as a success — either;
 //   - maxWaitDurationInHalfOpenState exactly elapsed;
 //   - a call arriving in HALF_OPEN after maxWait elapsed while a trial slot is still free: admitted as
 //     a trial ("only the first permitted calls are admitted") or rejected with the breaker reopening
@@ -75,12 +77,18 @@ func (p *Policy) String() string {
 }
 
 // kinds of a recorded result
+// A result is a set of bits: what is certain and what is possible under the open questions.
 const (
-	kSuccess       = uint8(iota)
-	kSlow          // no error, duration > threshold
-	kFail          // error, duration < threshold
-	kMaybeSlow     // no error, duration == threshold
-	kFailMaybeSlow // error, duration >= threshold
+	bitFail      = uint8(1) // certainly a failure
+	bitMaybeFail = uint8(2) // a failure or a success (failed call whose context was cancelled)
+	bitSlow      = uint8(4) // certainly slow
+	bitMaybeSlow = uint8(8) // slow under some reading
+
+	kSuccess       = uint8(0)
+	kSlow          = bitSlow                // no error, duration > threshold
+	kFail          = bitFail                // error, duration < threshold
+	kMaybeSlow     = bitMaybeSlow           // no error, duration == threshold
+	kFailMaybeSlow = bitFail | bitMaybeSlow // error, duration >= threshold
 )
 
 type entry struct {
@@ -213,14 +221,14 @@ func (m *M) render() string {
 
 // Brief is a short rendering for messages.
 func (m *M) Brief() string {
-	f, sl, sh, t := 0, 0, 0, 0
+	var c tallyT
 	if m.State == HalfOpen {
-		f, sl, sh, t = ratesK(m.HoWin)
+		c = ratesK(m.HoWin)
 	} else {
-		f, sl, sh, t = rates(m.Win)
+		c = rates(m.Win)
 	}
-	return fmt.Sprintf("%s(epoch %d since %d; window total=%d fail=%d slow=%d..%d; trials admitted=%d)",
-		m.State, m.Epoch, m.Transit, t, f, sl, sh, m.HoAdm)
+	return fmt.Sprintf("%s(epoch %d since %d; window total=%d fail=%d..%d slow=%d..%d; trials admitted=%d)",
+		m.State, m.Epoch, m.Transit, c.t, c.fl, c.fh, c.sl, c.sh, m.HoAdm)
 }
 
 // Acquire is the admission decision for a new call with identifier call at instant now.
@@ -275,8 +283,16 @@ func (m *M) acquire(call int, now int64) []Succ {
 	return []Succ{{Permit: false, M: n, Info: info}}
 }
 
-func classify(p *Policy, hasErr bool, dur int64) uint8 {
+func classify(p *Policy, hasErr, cancelled bool, dur int64) uint8 {
 	switch {
+	case hasErr && cancelled:
+		// The call failed after its caller gave up. The statement has every admitted call recorded
+		// (one result per call); whether this one tells anything about the backend (failure) or
+		// not (success) is left open: either, but it is in the window.
+		if dur >= p.SlowDur {
+			return bitMaybeFail | bitMaybeSlow
+		}
+		return bitMaybeFail
 	case hasErr && dur >= p.SlowDur:
 		return kFailMaybeSlow
 	case hasErr:
@@ -289,45 +305,58 @@ func classify(p *Policy, hasErr bool, dur int64) uint8 {
 	return kSuccess
 }
 
-func tally(k uint8, f, sl, sh *int) {
-	switch k {
-	case kSlow:
-		*sl++
-		*sh++
-	case kFail:
-		*f++
-	case kMaybeSlow:
-		*sh++
-	case kFailMaybeSlow:
-		*f++
-		*sh++
+// tallyT: lower / upper bounds of failures and slow calls in a window, and its size.
+type tallyT struct{ fl, fh, sl, sh, t int }
+
+func (c *tallyT) add(k uint8) {
+	c.t++
+	if k&bitFail != 0 {
+		c.fl++
+		c.fh++
+	} else if k&bitMaybeFail != 0 {
+		c.fh++
+	}
+	if k&bitSlow != 0 {
+		c.sl++
+		c.sh++
+	} else if k&bitMaybeSlow != 0 {
+		c.sh++
 	}
 }
 
-// rates returns failures, certainly-slow, possibly-slow (upper bound) and total.
-func rates(w []entry) (f, sl, sh, t int) {
+func rates(w []entry) (c tallyT) {
 	for _, e := range w {
-		tally(e.k, &f, &sl, &sh)
+		c.add(e.k)
 	}
-	return f, sl, sh, len(w)
+	return c
 }
 
-func ratesK(w []uint8) (f, sl, sh, t int) {
+func ratesK(w []uint8) (c tallyT) {
 	for _, k := range w {
-		tally(k, &f, &sl, &sh)
+		c.add(k)
 	}
-	return f, sl, sh, len(w)
+	return c
 }
 
-// verdict: must = the thresholds are certainly reached, may = reached under some reading.
-func (p *Policy) verdict(f, sl, sh, t int) (must, may, bySlowOnly bool) {
-	if t == 0 {
-		return false, false, false
+// verdict: must = a threshold is certainly reached, may = reached under some reading; bySlowOnly =
+// only the slow rate can have reached it; amb names the open question when must != may.
+func (p *Policy) verdict(c tallyT) (must, may, bySlowOnly bool, amb string) {
+	if c.t == 0 {
+		return false, false, false, ""
 	}
-	failHit := f*100 >= p.FailThr*t
-	must = failHit || sl*100 >= p.SlowThr*t
-	may = failHit || sh*100 >= p.SlowThr*t
-	return must, may, !failHit && may
+	failMust := c.fl*100 >= p.FailThr*c.t
+	failMay := c.fh*100 >= p.FailThr*c.t
+	slowMust := c.sl*100 >= p.SlowThr*c.t
+	slowMay := c.sh*100 >= p.SlowThr*c.t
+	must = failMust || slowMust
+	may = failMay || slowMay
+	if may && !must {
+		amb = "slow-classification"
+		if failMay {
+			amb = "cancelled-failed-call-failure-or-success"
+		}
+	}
+	return must, may, may && !failMay, amb
 }
 
 func floorSec(now int64) int64 {
@@ -341,10 +370,15 @@ func floorSec(now int64) int64 {
 // Record is the completion of call (admitted earlier) with the given outcome at instant now.
 // It panics when the call was not admitted or was recorded before (harness error).
 func (m *M) Record(call int, hasErr bool, dur int64, now int64) []Succ {
-	return seal(m.record(call, hasErr, dur, now))
+	return seal(m.record(call, hasErr, false, dur, now))
 }
 
-func (m *M) record(call int, hasErr bool, dur int64, now int64) []Succ {
+// RecordX is Record for a call whose context may have been cancelled before it completed.
+func (m *M) RecordX(call int, hasErr, cancelled bool, dur int64, now int64) []Succ {
+	return seal(m.record(call, hasErr, cancelled, dur, now))
+}
+
+func (m *M) record(call int, hasErr, cancelled bool, dur int64, now int64) []Succ {
 	ep := m.Admitted(call)
 	if ep < 0 {
 		panic(fmt.Sprintf("c08model: Record for call %d which is not outstanding (%d)", call, ep))
@@ -356,13 +390,13 @@ func (m *M) record(call int, hasErr bool, dur int64, now int64) []Succ {
 		info.Late = true
 		return []Succ{{M: n, Info: info}}
 	}
-	k := classify(n.P, hasErr, dur)
+	k := classify(n.P, hasErr, cancelled, dur)
 	amb := ""
 	switch n.State {
 	case Closed:
 		if n.P.TimeBased {
 			sec := floorSec(now)
-			f0, sl0, sh0, t0 := rates(n.Win)
+			c0 := rates(n.Win)
 			kept := n.Win[:0:0]
 			for _, e := range n.Win {
 				if sec-e.sec < int64(n.P.Size) {
@@ -373,15 +407,14 @@ func (m *M) record(call int, hasErr bool, dur int64, now int64) []Succ {
 			n.Win = append(kept, entry{sec: sec, k: k})
 			if info.Evicted > 0 {
 				// what the rates and the verdict would have been without eviction
-				tally(k, &f0, &sl0, &sh0)
-				t0++
-				f1, sl1, sh1, t1 := rates(n.Win)
-				if f0*t1 != f1*t0 || sl0*t1 != sl1*t0 || sh0*t1 != sh1*t0 {
+				c0.add(k)
+				c1 := rates(n.Win)
+				if c0.fl*c1.t != c1.fl*c0.t || c0.fh*c1.t != c1.fh*c0.t || c0.sl*c1.t != c1.sl*c0.t || c0.sh*c1.t != c1.sh*c0.t {
 					info.EvictChangedRate = true
 				}
-				mu0, ma0, _ := n.P.verdict(f0, sl0, sh0, t0)
-				mu1, ma1, _ := n.P.verdict(f1, sl1, sh1, t1)
-				if t0 >= n.P.Minimum && (t1 < n.P.Minimum || mu0 != mu1 || ma0 != ma1) {
+				mu0, ma0, _, _ := n.P.verdict(c0)
+				mu1, ma1, _, _ := n.P.verdict(c1)
+				if c0.t >= n.P.Minimum && (c1.t < n.P.Minimum || mu0 != mu1 || ma0 != ma1) {
 					info.EvictChangedVerd = true
 				}
 			}
@@ -392,25 +425,26 @@ func (m *M) record(call int, hasErr bool, dur int64, now int64) []Succ {
 				info.CountEvicted = true
 			}
 		}
-		f, sl, sh, t := rates(n.Win)
+		c := rates(n.Win)
+		t := c.t
 		if t < n.P.Minimum {
 			return []Succ{{M: n, Info: info}}
 		}
 		info.Evaluated = true
 		info.AtMinimum = t == n.P.Minimum && n.P.Minimum >= 2
-		must, may, bySlow := n.P.verdict(f, sl, sh, t)
+		must, may, bySlow, vamb := n.P.verdict(c)
 		switch {
 		case must:
 			info.BySlow = bySlow
 			n.transit(Open, now, &info)
 			return []Succ{{M: n, Info: info}}
 		case may:
-			amb = "slow-classification"
+			amb = vamb
 			stay := n.clone()
 			si := info
 			si.Ambiguous = amb
 			oi := si
-			oi.BySlow = true
+			oi.BySlow = bySlow
 			n.transit(Open, now, &oi)
 			return []Succ{{M: stay, Info: si}, {M: n, Info: oi}}
 		}
@@ -418,7 +452,8 @@ func (m *M) record(call int, hasErr bool, dur int64, now int64) []Succ {
 
 	case HalfOpen:
 		n.HoWin = append(n.HoWin, k)
-		f, sl, sh, t := ratesK(n.HoWin)
+		hc := ratesK(n.HoWin)
+		t := hc.t
 		lo := n.P.Minimum
 		if lo > n.P.Permitted {
 			lo = n.P.Permitted
@@ -428,7 +463,7 @@ func (m *M) record(call int, hasErr bool, dur int64, now int64) []Succ {
 		}
 		info.Evaluated = true
 		info.AtMinimum = t == lo && lo >= 2
-		must, may, bySlow := n.P.verdict(f, sl, sh, t)
+		must, may, bySlow, vamb := n.P.verdict(hc)
 		var out []Succ
 		early := t < n.P.Permitted
 		if early {
@@ -445,7 +480,7 @@ func (m *M) record(call int, hasErr bool, dur int64, now int64) []Succ {
 				oi.Ambiguous = amb
 			}
 			if !must {
-				oi.Ambiguous = "slow-classification"
+				oi.Ambiguous = vamb
 			}
 			o.transit(Open, now, &oi)
 			out = append(out, Succ{M: o, Info: oi})
@@ -457,7 +492,7 @@ func (m *M) record(call int, hasErr bool, dur int64, now int64) []Succ {
 				ci.Ambiguous = amb
 			}
 			if may {
-				ci.Ambiguous = "slow-classification"
+				ci.Ambiguous = vamb
 			}
 			c.transit(Closed, now, &ci)
 			out = append(out, Succ{M: c, Info: ci})
@@ -639,9 +674,14 @@ func (t *Tracker) ObserveAcquire(call int, now int64, permit bool, state string)
 
 // ObserveRecord is the same for a completion.
 func (t *Tracker) ObserveRecord(call int, hasErr bool, dur, now int64, state string) (ok bool, want string) {
+	return t.ObserveRecordX(call, hasErr, false, dur, now, state)
+}
+
+// ObserveRecordX: completion of a call whose context may have been cancelled.
+func (t *Tracker) ObserveRecordX(call int, hasErr, cancelled bool, dur, now int64, state string) (ok bool, want string) {
 	var all, kept []Succ
 	for _, m := range t.Ms {
-		all = append(all, m.Record(call, hasErr, dur, now)...)
+		all = append(all, m.RecordX(call, hasErr, cancelled, dur, now)...)
 	}
 	for _, s := range all {
 		if state == "" || s.M.State == state {
